@@ -474,6 +474,8 @@ def run(ctx):
         n = int(rng.integers(2, 12)) if it % 3 else int(rng.integers(60, 140))
         sv = np.sort(np.exp(rng.normal(0.0, 1.5, size=n)))[::-1].copy()
         N = int(2 * rng.integers(8, 101)); m = float(10.0 ** rng.uniform(-3, 3))
+        if n >= 12 and it % 2 == 0:
+            m = [1e3, 1e-3][(it // 2) % 2]            # ends of the amplitude range with many singular values: products over/underflow
         ctx.count('search/criterion/%s_eigen/%s' % (which, 'short' if n < 12 else 'long'))
         ctx.case(('crit', which, sv.tobytes(), N, m), nontrivial=(n >= 3), sample={'estimator': which + '_eigen', 'n': n, 'N': N, 'm': m})
         rep = {'form': 'criterion', 'estimator': which, 'x': vlib.hexv(np.asarray(sv, dtype=complex)), 'datatype': 'real', 'N': N,
